@@ -31,7 +31,9 @@ RULE = ('(a) bounded-exhaustive token soups x every start position x legacy call
         'std_macro(name, argspec), std_macro(name, optarg, numargs), tuple forms, environment '
         'analogues), applied to generated call strings for that signature (every present/absent '
         'pattern, whitespace variants): call nodes, nodeoptarg/nodeargs views and positions must '
-        'agree. Non-trivial = call that consumes >= 1 argument or stops on a condition; distinct '
+        'agree. Also: strict_braces None/False (documented empty result counts as failing), explicit '
+        'parsing_state=, tolerant walkers, a math delimiter where a mandatory argument is expected. '
+        'Non-trivial = call that consumes >= 1 argument or stops on a condition; distinct '
         'by (string, position, variant).')
 ASSUMPTIONS = [
     'documented legacy post-processing is applied by the oracle: get_latex_expression() clears '
